@@ -53,6 +53,8 @@ def run(ctx):
     res.extra["flood_and_flow_rounds"] = fl
     # "the one user currently owning that nickname": two members asking for one free nickname at the same moment
     common.run_rename_storms(ctx, res, "c01:")
+    # "every order in which the receiving connections drain their queues": a receiver that reads nothing until 12 MB wait
+    common.run_storm_kinds(ctx, res, "c01:", ["backlog"], 1, 4, jobs=2)
     res.distinct.add("flood:late-reader")
     res.distinct.add("flood:prompt-reader")
     common.sample_histories(res, results, ("PRIVMSG", "NOTICE"))
